@@ -182,6 +182,39 @@ def _obs(meas_objs, pool_index):
   return out
 
 
+ENDS = ['CONTINUE', 'REPEAT', 'SKIP', 'FAIL_AND_CONTINUE', 'FAIL_SUBTEST', 'STOP', 'TIMEOUT']
+
+
+def _end_of(case):
+  """the phase result the phase ends with: the end-of-phase rule of C06 holds for every one of them"""
+  if case.get('end'):
+    return case['end']
+  h = len(case['ops']) + sum(op[1] for op in case['ops'] if len(op) > 1 and isinstance(op[1], int)) + \
+      sum(op[-1] for op in case['ops'] if isinstance(op[-1], int))
+  return ENDS[h % len(ENDS)]
+
+
+class _RecLogger(object):
+  def __init__(self):
+    self.raised = False
+
+  def exception(self, *a, **k):
+    self.raised = True
+
+  def __getattr__(self, name):
+    return lambda *a, **k: None
+
+
+def _end_phase(case, ps, ctxm):
+  from openhtf.core import phase_executor, phase_descriptor
+  end = _end_of(case)
+  ps.result = phase_executor.PhaseExecutionOutcome(None if end == 'TIMEOUT' else phase_descriptor.PhaseResult[end])
+  lg = _RecLogger()
+  ps.logger = lg          # a validator raising under an already terminal result is only logged
+  ctxm.__exit__(None, None, None)
+  return 'raised' if (ps.result.raised_exception or lg.raised) else 'ok'
+
+
 def run_real(case):
   import openhtf as htf
   from openhtf.core import measurements, test_state, diagnoses_lib
@@ -232,10 +265,7 @@ def run_real(case):
           state.diagnoses_manager.store._add_diagnosis(diagnoses_lib.Diagnosis(enum['R%d' % op[1]], 'added mid-phase'))
         elif op[0] == 'E':
           ended = True
-          from openhtf.core import phase_executor, phase_descriptor
-          ps.result = phase_executor.PhaseExecutionOutcome(phase_descriptor.PhaseResult.CONTINUE)
-          ctxm.__exit__(None, None, None)
-          res = 'raised' if ps.result.raised_exception else 'ok'
+          res = _end_phase(case, ps, ctxm)
       except measurements.NotAMeasurementError:
         res = 'nam'
       except measurements.InvalidDimensionsError:
@@ -248,9 +278,7 @@ def run_real(case):
         res = 'raised'
       trace.append('/'.join([res] + _obs(objs, pidx)))
     if not ended:
-      from openhtf.core import phase_executor, phase_descriptor
-      ps.result = phase_executor.PhaseExecutionOutcome(phase_descriptor.PhaseResult.CONTINUE)
-      ctxm.__exit__(None, None, None)
+      _end_phase(case, ps, ctxm)
   finally:
     state.close()
   return {'trace': trace}
